@@ -95,7 +95,7 @@ func seqFloors(tier string) map[string]int64 {
 }
 
 func runSeq(c *core.Ctx) {
-	goshim.Seed(c.Rng.Bytes(16))
+	shimSeed := c.Rng.Bytes(16)
 	pc := genPoolCfg(c.Rng)
 	w, err := newWorld(c, pc)
 	if err != nil {
@@ -107,6 +107,7 @@ func runSeq(c *core.Ctx) {
 		return
 	}
 	defer w.close()
+	goshim.Seed(shimSeed) // after the (cached, separately seeded) warm chain: a replayed case draws the same shim randomness
 	nOps := c.Rng.Range(100, 150)
 	w.afterOp(opCtx{kind: "init", sender: -1}, "start")
 	for i := 0; i < nOps && !w.stop; i++ {
